@@ -2,7 +2,7 @@
 
 Tie: every generated history (new node / set / replace / delete / bulk update /
 nested path keys / read hash / forced update / entries / to_model / collect /
-reset) is run on /repo's classes and on the extracted heap machine
+reset / out-of-band data write) is run on /repo's classes and on the extracted heap machine
 (coq/model/Merkle.v), and every output is compared op by op:
   * generic world: a MerkleNode/MerkleLeaf subclass whose compute_hash is the
     driver's NH (md5 of an injective encoding of data and, in dict order,
@@ -28,13 +28,20 @@ PROPS = "Props/C10.v"
 EXTRACT = "extract/ExC10.v"
 OBLIGATION = "merkle-history"
 THEOREMS = ["C10_inv_init", "C10_inv_step", "C10_reachable", "C10_no_stale", "C10_path_ops_total",
-            "C10_acyclic_equiv", "C10_acyclic_no_self_reach", "C10_fresh_unique",
+            "C10_acyclic_equiv", "C10_acyclic_no_self_reach", "C10_force_restores", "C10_inv_split",
+            "C10_write_force_fresh", "C10_write_force_satisfiable", "C10_fresh_unique",
             "C10_delete_keeps_other_parent", "C10_no_stale_refuted_old_remove",
             "C10_falsy_hash_refuted_old", "C10_guards_satisfiable"]
 RULE = ("histories of 5-60 operations over <= 12 nodes (generic MerkleNode/MerkleLeaf subclass, and real "
         "from_disk Directory/Content), seeded with the proof's case splits (child shared by two structurally "
         "equal parents, replace in place, delete then re-attach, nested path keys 3 levels deep, forced update "
-        "inside a diamond, reads before/after each mutation, generic nodes whose hash is the falsy b''), never "
+        "inside a diamond, reads before/after each mutation, generic nodes whose hash is the falsy b'', a child "
+        "replaced by a different but structurally equal node, an entry replaced by a leaf with the same bytes and "
+        "another mode); in 60 % of the histories also out-of-band data writes "
+        "(op W: node.data reassigned, the library is not told) followed - not necessarily at once - by "
+        "update_hash(force=True) at a dominating node, at a non-dominating node (written node shared under two "
+        "roots) or by nothing: the written node and everything above it are excused from freshness until a forced "
+        "update has them below or above (C10_force_restores), everything else is checked as before; never "
         "creating a cycle; non-trivial = at least "
         "one successful mutation below a node that was read before and has >= 2 parents or height >= 2; "
         "distinct = distinct request line")
@@ -44,7 +51,10 @@ TRUSTED = ["Python dict semantics as modelled in model/Merkle.v (insertion order
            "Directory.to_model); NH abstracts the manifest/sha1 part (covered by C02/C06)"]
 ASSUMPTIONS = ["histories never create a cycle (trees and DAGs only)",
                "compute_hash never returns None (None is the 'not computed' marker); any other value, b'' included, is fine",
-               "bulk update keys are plain names (non-empty, no '/')", "node.data is not reassigned after creation"]
+               "bulk update keys are plain names (non-empty, no '/')",
+               "node.data may be reassigned behind the library's back (op W): the node and everything above it are then "
+               "excused from freshness until update_hash(force=True) at a node r; that restores every node below r and "
+               "above r (C10_force_restores); nodes neither below nor above r stay excused"]
 CASE_TIMEOUT = 30
 
 KEYS = [b"a", b"b", b"c"]
@@ -69,6 +79,7 @@ class Shadow:
 
     def __init__(self):
         self.kind, self.kids = [], []
+        self.written = set()     # nodes whose data was written out of band and not yet below a forced update
 
     def new(self, k):
         self.kind.append(k)
@@ -135,6 +146,12 @@ class Shadow:
     def height(self, n):
         return 1 + max([self.height(c) for c in self.kids[n].values()], default=-1)
 
+    def dominators(self, n):
+        """nodes r such that every ancestor-or-self of n is below or above r (a forced update at r restores everything)"""
+        N = range(len(self.kind))
+        anc = [a for a in N if n in self.reach(a)]
+        return [r for r in N if n in self.reach(r) and all(a in self.reach(r) or r in self.reach(a) for a in anc)]
+
     def nparents(self, n):
         return sum(1 for p in range(len(self.kids)) for c in self.kids[p].values() if c == n)
 
@@ -143,6 +160,10 @@ class Shadow:
         t = op[0]
         if t == "N":
             self.new(op[1])
+        elif t == "W":
+            self.written.add(op[1])
+        elif t == "F":
+            self.written -= self.reach(op[1])
         elif t == "S":
             r = self.set_target(op[1], bytes.fromhex(op[2]), op[3])
             if r:
@@ -231,10 +252,43 @@ def scenario(rng, world, which):
             ops[0] = ["N", "n", H(b"z")]
         ops += [["S", p1, a, c], ["S", root, a, p1], ["H", root], ["L", root], ["S", c, z, y], ["H", root], ["L", root],
                 ["D", c, z], ["H", root], ["F", c], ["H", root]]
+    elif which == 8:    # out-of-band data write, made visible by a forced update at a dominating node
+        wd = write_data_for(rng, world, "c" if world == "disk" else leaf)
+        ops += [["S", p1, x, c], ["S", root, a, p1], ["S", c, z, y], ["L", root],
+                ["W", y, wd]]
+        if rng.random() < 0.5:
+            ops += [["H", root]]
+        if rng.random() < 0.3:
+            ops += [["W", c, write_data_for(rng, world, inner)]]
+        ops += [["F", rng.choice([root, root, p1])], ["L", root], ["H", root], ["L", root]]
+    elif which == 9:    # written node shared under two roots; forced update on one root only
+        wd = write_data_for(rng, world, "c" if world == "disk" else leaf)
+        ops += [["S", p1, x, y], ["S", p2, x, y], ["S", root, a, p1], ["H", root], ["H", p2], ["L", root], ["L", p2],
+                ["W", y, wd], ["F", root], ["L", root], ["H", root], ["F", p2], ["L", p2], ["H", p2]]
+    elif which == 10:   # a child replaced (bulk update or assignment) by a DIFFERENT node that is structurally equal to it
+        ops += [["S", root, a, p1], ["S", root, b, c], rng.choice([["H", root], ["L", root]])]
+        ops += [rng.choice([["U", root, [[a, p2]]], ["U", root, [[b, p2], [a, p2]]], ["S", root, a, p2]])]
+        if rng.random() < 0.5:
+            ops += [rng.choice([["H", root], ["L", root]])]
+        ops += [["S", p2, z, y], ["H", root], ["L", root], ["S", p1, z, y], ["H", root], ["L", root]]
+    elif which == 11:   # an entry replaced by a leaf with the same content (hence, on disk, the same hash) but other attributes
+        other = H(b"755:A") if world == "disk" else H(b"y")
+        ops += [["S", p1, z, y], ["S", root, a, p1], rng.choice([["H", root], ["L", root], ["M", root]]),
+                ["N", "c" if world == "disk" else leaf, other],
+                rng.choice([["S", p1, z, 5], ["S", root, H(b"a/b"), 5]]) if world == "disk" else ["S", p1, z, 5],
+                ["H", root], ["M", root], ["L", root]]
     elif which == 6:    # collect / mutate / collect
         ops += [["S", p1, x, c], ["S", p2, x, c], ["S", root, a, p1], ["S", root, b, p2], ["L", root], ["L", root],
                 ["S", c, z, y], ["L", root], ["R", p1], ["L", root]]
     return ops
+
+
+def write_data_for(rng, world, kind):
+    if world == "generic":
+        return H(rng.choice([b"x", b"y", b"w", b"w2", b"z"]))
+    if kind == "d":
+        return H(rng.choice([b"", b"q", b"w"]))
+    return H(rng.choice([b"644:A", b"755:A", b"644:W", b"644:W2", b"755:W"]))
 
 
 def rand_key(rng, world, sh, p):
@@ -249,8 +303,8 @@ def rand_key(rng, world, sh, p):
 
 def rand_op(rng, world, sh, w):
     n = len(sh.kind)
-    t = rng.choices(["N", "S", "D", "U", "G", "C", "H", "F", "E", "M", "L", "R"],
-                    weights=[w.get(k, 0) for k in ["N", "S", "D", "U", "G", "C", "H", "F", "E", "M", "L", "R"]])[0]
+    t = rng.choices(["N", "S", "D", "U", "G", "C", "H", "F", "E", "M", "L", "R", "W"],
+                    weights=[w.get(k, 0) for k in ["N", "S", "D", "U", "G", "C", "H", "F", "E", "M", "L", "R", "W"]])[0]
     if n == 0 or t == "N":
         if world == "generic":
             return ["N", rng.choice("nnnl"), H(rng.choice([b"x", b"x", b"x", b"y", b"z", b"z"]))]
@@ -282,13 +336,20 @@ def rand_op(rng, world, sh, w):
     if t in ("E", "M"):
         dirs = [i for i in range(n) if sh.kind[i] == "d"]
         return [t, rng.choice(dirs) if dirs and rng.random() < 0.95 else anyn]
+    if t == "W":
+        return ["W", anyn, write_data_for(rng, world, sh.kind[anyn])]
+    if t in ("F", "L") and sh.written and rng.random() < (0.7 if t == "F" else 0.4):
+        # a forced update (or a collect) at a node dominating a written node
+        dom = sh.dominators(rng.choice(sorted(sh.written)))
+        if dom:
+            return [t, rng.choice(dom)]
     return [t, anyn]
 
 
-WEIGHTS_C10 = {"N": 3, "S": 8, "D": 4, "U": 2, "G": 1, "C": 1, "H": 6, "F": 2, "E": 1, "M": 1, "L": 1, "R": 0.5}
+WEIGHTS_C10 = {"N": 3, "S": 8, "D": 4, "U": 2, "G": 1, "C": 1, "H": 6, "F": 2.5, "E": 1, "M": 1, "L": 1.5, "R": 0.5, "W": 1.5}
 
 
-def gen_case(rng, world, nops, weights, nscen=8, readall=None):
+def gen_case(rng, world, nops, weights, nscen=12, readall=None):
     sh = Shadow()
     ops = []
     if rng.random() < 0.6:
@@ -297,6 +358,8 @@ def gen_case(rng, world, nops, weights, nscen=8, readall=None):
                 sh.apply(op)
                 ops.append(op)
     w = dict(weights)
+    if rng.random() < 0.4:
+        w["W"] = 0          # a share of histories without out-of-band writes (the guarded histories of the theorems)
     if world == "generic":
         w["E"] = w["M"] = 0.05
     tries = 0
@@ -322,8 +385,8 @@ def gen_case(rng, world, nops, weights, nscen=8, readall=None):
     return {"world": world, "ops": ops, "by_id": 1}
 
 
-def gen(rng, tier, weights=WEIGHTS_C10, nscen=8):
-    n_cases = 1500 if tier == "quick" else 30000
+def gen(rng, tier, weights=WEIGHTS_C10, nscen=12):
+    n_cases = 1200 if tier == "quick" else 30000
     cases = []
     for k in range(n_cases):
         world = "generic" if k % 2 == 0 else "disk"
@@ -336,9 +399,14 @@ def replay_shadow(c):
     sh = Shadow()
     read = set()
     hit = False
-    info = {"shared": False, "equal_parents": False, "replace": False, "nested": False, "force": False, "errors": False}
+    info = {"shared": False, "equal_parents": False, "replace": False, "nested": False, "force": False, "errors": False,
+            "write": False, "write-then-force-above": False}
     for op in c["ops"]:
         t = op[0]
+        if t == "W":
+            info["write"] = True
+        if t == "F" and op[1] < len(sh.kind) and sh.written & sh.reach(op[1]):
+            info["write-then-force-above"] = True
         if t in ("H", "F", "L", "E", "M") and op[1] < len(sh.kind):
             read.add(op[1])
             if t == "F" and sh.kids[op[1]]:
@@ -407,9 +475,39 @@ def mk_node(kind, data):
     return from_disk.Content.from_bytes(mode=int(b"100" + perms, 8), data=raw)
 
 
+def write_data(node, data):
+    """node.data = <new data>, as a caller who knows that the file / attributes changed would do; the library is
+    not told (no invalidate_hash)"""
+    from swh.model import from_disk
+    if isinstance(node, from_disk.Directory):
+        node.data = {"name": data}
+    elif isinstance(node, from_disk.Content):
+        node.data = mk_node("c", data).data
+    else:
+        node.data = data
+
+
+def up_closure(nodes, dirty):
+    """ids of the nodes that have a node of `dirty` (ids) below them, in the current structure"""
+    if not dirty:
+        return set()
+    parents = {}
+    for nd in nodes:
+        for ch in dict.values(nd):
+            parents.setdefault(id(ch), []).append(id(nd))
+    seen, todo = set(dirty), list(dirty)
+    while todo:
+        x = todo.pop()
+        for p in parents.get(x, ()):
+            if p not in seen:
+                seen.add(p)
+                todo.append(p)
+    return seen
+
+
 def mdata(node):
     """the model's `data` of an implementation node"""
-    from swh.model import from_disk
+    from_disk = _mods()[0]
     if isinstance(node, from_disk.Directory):
         return node.data["name"]
     if isinstance(node, from_disk.Content):
@@ -417,23 +515,43 @@ def mdata(node):
     return node.data
 
 
+_MEMO = {}     # (kind, id(node)) -> from-scratch value; emptied by impl() before every operation (pure speed-up:
+               # the from-scratch functions read the structure only, which does not change within one operation's checks)
+
+
 def scratch_m(node):
     """NH-hash from scratch over the current dict structure (no cache is read)"""
-    return nh(mdata(node), [(name, mdata(ch), scratch_m(ch)) for name, ch in dict.items(node)])
+    k = ("m", id(node))
+    if k not in _MEMO:
+        _MEMO[k] = nh(mdata(node), [(name, mdata(ch), scratch_m(ch)) for name, ch in dict.items(node)])
+    return _MEMO[k]
+
+
+_MODS = []
+
+
+def _mods():
+    if not _MODS:
+        from swh.model import from_disk, model
+        _MODS.extend([from_disk, model])
+    return _MODS
 
 
 def scratch_real(node):
     """the hash the implementation should report, from scratch"""
-    from swh.model import from_disk, model
+    from_disk, model = _mods()
     if isinstance(node, from_disk.Content):
         return node.data["sha1_git"]
     if isinstance(node, from_disk.Directory):
-        return model.Directory(entries=tuple(scratch_entries(node))).id
+        k = ("r", id(node))
+        if k not in _MEMO:
+            _MEMO[k] = model.Directory(entries=tuple(scratch_entries(node))).id
+        return _MEMO[k]
     return scratch_m(node)
 
 
 def scratch_entries(node):
-    from swh.model import from_disk, model
+    from_disk, model = _mods()
     es = []
     for name, ch in dict.items(node):
         if isinstance(ch, from_disk.Directory):
@@ -471,8 +589,15 @@ def impl(c):
     quiet = {}               # root handle -> "collect"/"reset" while no mutation happened since
     owed = set()             # id() of the nodes below some reset_collect() that no collection has visited since (C14:
                              # "after a collection reset every node is reported again", whichever node is reset or collected)
+    dirty = set()            # id() of the nodes excused from freshness: a node whose data was written out of band ("W")
+                             # and everything above it, until update_hash(force=True) at a node r: that restores the
+                             # nodes below r and empties the caches of the nodes above r (C10_force_restores); a node
+                             # neither below nor above r stays excused (it is stale, legitimately: nobody told it)
+    loose = []               # op indexes whose output is not compared with the model (disk world, excused node: the
+                             # harness token is derived from the structure there, not from the reported value)
     for idx, op in enumerate(c["ops"]):
         t = op[0]
+        _MEMO.clear()
         try:
             if t == "N":
                 nd = mk_node(op[1], bytes.fromhex(op[2]))
@@ -492,39 +617,60 @@ def impl(c):
                 tok = "h%d" % handle[id(nodes[op[1]][bytes.fromhex(op[2])])]
             elif t == "C":
                 tok = "b1" if bytes.fromhex(op[2]) in nodes[op[1]] else "b0"
+            elif t == "W":
+                write_data(nodes[op[1]], bytes.fromhex(op[2]))
+                dirty.add(id(nodes[op[1]]))
+                quiet = {}
+                tok = "u"
             elif t in ("H", "F"):
                 nd = nodes[op[1]]
                 h = nd.hash if t == "H" else nd.update_hash(force=True)
+                if t == "F":
+                    below = {id(r) for r in reach_impl(nd)}
+                    above = {id(a) for a in nodes if id(nd) in {id(r) for r in reach_impl(a)}}
+                    dirty -= below | above
+                    dirty = up_closure(nodes, dirty)
                 want = scratch_real(nd)
-                if h != want:
+                if not generic and id(nd) in dirty:
+                    loose.append(idx)
+                if h != want and id(nd) not in dirty:
                     bad.append("op %d %s: node %d reports hash %s but its current structure hashes to %s"
                                % (idx, op, op[1], hexs(h), hexs(want)))
                 tok = "x" + hexs(h if generic else scratch_m(nd))
             elif t in ("E", "M"):
                 nd = nodes[op[1]]
+                excused = id(nd) in dirty
+                if excused:
+                    loose.append(idx)
                 if t == "E":
                     got = sorted((e["name"], e["type"], int(e["perms"]), e["target"]) for e in nd.entries)
                 else:
                     mo = nd.to_model()
                     got = sorted((e.name, e.type, int(e.perms), e.target) for e in mo.entries)
-                    if mo.id != scratch_real(nd):
+                    if mo.id != scratch_real(nd) and not excused:
                         bad.append("op %d %s: to_model().id is stale" % (idx, op))
                 want = sorted((e.name, e.type, int(e.perms), e.target) for e in scratch_entries(nd))
-                if got != want:
+                if got != want and not excused:
                     bad.append("op %d %s: entries differ from the from-scratch entries: %r vs %r" % (idx, op, got, want))
                 tok = "e" + "+".join(sorted(hexs(name) + ":" + hexs(scratch_m(ch)) for name, ch in dict.items(nd)))
             elif t == "L":
                 nd = nodes[op[1]]
                 got = nd.collect()
+                dirty = up_closure(nodes, dirty)
                 hs = set()
+                toks = set()
                 for g in got:
                     hr = scratch_real(g)
-                    if g.hash != hr:
+                    gh = g.hash
+                    if gh != hr and id(g) not in dirty:
                         bad.append("op %d %s: collected node %d has a stale hash" % (idx, op, handle[id(g)]))
-                    reported.add(hr)
+                    reported.add(gh)
                     hs.add(scratch_m(g))
+                    toks.add(gh if generic else scratch_m(g))
+                    if not generic and id(g) in dirty:
+                        loose.append(idx)
                 for r in reach_impl(nd):
-                    if scratch_real(r) not in reported:
+                    if id(r) not in dirty and scratch_real(r) not in reported:
                         bad.append("op %d %s: node %d is in the tree but no collection reported its current hash"
                                    % (idx, op, handle[id(r)]))
                         break
@@ -541,7 +687,7 @@ def impl(c):
                         bad.append("op %d %s: collect after reset_collect did not report every node" % (idx, op))
                 quiet = {k: v for k, v in quiet.items() if v == "collect"}
                 quiet[op[1]] = "collect"
-                tok = "n" + ",".join(sorted(hexs(h) for h in hs))
+                tok = "n" + ",".join(sorted(hexs(h) for h in toks))
             elif t == "R":
                 nodes[op[1]].reset_collect()
                 owed |= {id(r) for r in reach_impl(nodes[op[1]])}
@@ -554,10 +700,11 @@ def impl(c):
         if t in MUT or t == "F":
             quiet = {}
         outs.append(tok)
+        dirty = up_closure(nodes, dirty)
         # the property, without touching any cache: a set private hash must be the from-scratch hash
         for i, nd in enumerate(nodes):
             ch = getattr(nd, "_MerkleNode__hash", None)
-            if ch:
+            if ch and id(nd) not in dirty:
                 try:
                     want = scratch_real(nd)
                 except RecursionError:
@@ -567,7 +714,7 @@ def impl(c):
                                % (idx, op, i, hexs(ch), hexs(want)))
         if len(bad) > 3:
             break
-    return {"outs": outs, "oracle": bad[0] if bad else None}
+    return {"outs": outs, "oracle": bad[0] if bad else None, "loose": sorted(set(loose))}
 
 
 # ------------------------------------------------------------------ model side
@@ -577,7 +724,7 @@ def enc_op(op):
         return "N,%s,%s" % (op[1], op[2] or ".")
     if t == "S":
         return "S,%d,%s,%d" % (op[1], op[2] or ".", op[3])
-    if t in ("D", "G", "C"):
+    if t in ("D", "G", "C", "W"):
         return "%s,%d,%s" % (t, op[1], op[2] or ".")
     if t == "U":
         return "U,%d,%s" % (op[1], "+".join("%s=%d" % (k or ".", ch) for k, ch in op[2]) or ".")
@@ -615,8 +762,9 @@ def compare(c, ires, mres):
     if "outs" not in mres:
         return "model failed: " + str(mres)
     a, b = ires["outs"], mres["outs"]
+    loose = set(ires.get("loose", ()))
     for i, (x, y) in enumerate(zip(a, b)):
-        if x != y:
+        if x != y and i not in loose:
             return "op %d %s: implementation %s, model %s" % (i, c["ops"][i], x, y)
     if len(a) != len(b):
         return "output count differs: %d vs %d" % (len(a), len(b))
